@@ -240,6 +240,26 @@ def main():
             wt = f'{d}/{pid}'
             worktree(wt)
             open(f'{d}/prompt_{pid}.txt', 'w').write(AUDIT_TMPL.format(wt=wt, id=pid, title=pr['title'], statement=pr['statement'], quant=pr['quantifier']['text'], extra=(LAB_NOTE if pid == "C20" else "") + note))
+    elif kind == "audit4":
+        props = {json.loads(l)['id']: json.loads(l) for l in open('/verif/properties.jsonl')}
+        note = ("\n\nThis is a FOURTH audit. `git log --oneline | grep fix:` in the worktree lists the defects already found and repaired (three earlier audits) - do not report those again. "
+                "Also already known, do NOT report: numpy scalar types refused with TypeError by parameters documented as int/float; wrap-around of narrow integer dtypes; zero-length fibres; "
+                "the odd edge extension of sosfiltfilt in LPF/BPF/PD (end samples, short-record tones, PD noise variance at narrow bandwidth); the soft-decision BER computed as 1 - quad(...) below 1e-8; "
+                "FIBER's beta2/gamma relative sign; noise components left unpropagated by DM/FIBER/FBG/SYNC; tab/newline separators and the empty string in 0/1 text; a numpy value on the LEFT of a "
+                "comparison with a signal; `signal > x` comparing moduli; gv keywords colliding with gv's own names; PD with BW >= fs/2; NaN arguments; filters with BW/fs below 1e-5; a waveform delayed "
+                "by a fraction of a slot against the sample grid; utils.dec2bin given a 0-d array; SYNC with a record exactly one pattern long; amplitudes near 1e154; MZM/PM with a length-1 drive array. "
+                "This time attack the EDGES OF THE QUANTIFIED DOMAIN and the SMALLEST and MOST DEGENERATE inputs that are still inside it: the shortest record the quantifier allows and the one just "
+                "above it (one symbol, one slot pair, 17 samples, one block, one block plus one bit), odd vs even counts of everything (samples, slots, symbols, sps, blocks), both inclusive ends of every "
+                "stated parameter range and values a hair inside them, parameters at which two branches of the code meet (exactly equal sigmas, exactly zero loss, M = 2 and M = 256, order 7 and 31, "
+                "n = 1 bit, ER = inf, T = 0), data with extreme composition (a single 1 in zeros, a single 0 in ones, all transitions on one slot parity, a level populated by ONE sample), "
+                "perfectly noise-free inputs where an estimated spread is exactly 0, and records a little longer than an internal cap (nslots, block size, padding length). For every packaged routine "
+                "that estimates something from data and then decides with it, ask what happens when the estimate is computed from very few points. Generate these cases systematically (exhaustively for "
+                "small sizes). Prefer silent wrong answers over loud exceptions, but report both. Several audits run on this machine at once: prefix every python command with "
+                "OMP_NUM_THREADS=1 OPENBLAS_NUM_THREADS=1.")
+        for pid, pr in props.items():
+            wt = f'{d}/{pid}'
+            worktree(wt)
+            open(f'{d}/prompt_{pid}.txt', 'w').write(AUDIT_TMPL.format(wt=wt, id=pid, title=pr['title'], statement=pr['statement'], quant=pr['quantifier']['text'], extra=(LAB_NOTE if pid == "C20" else "") + note))
     elif kind == "small3":
         props = {json.loads(l)['id']: json.loads(l) for l in open('/verif/properties.jsonl')}
         note = ("\n\nAdditional requirement for this round: `git log --oneline | grep fix:` lists recent repairs. At least THREE of your five commits must edit a function (or the very lines) "
